@@ -412,7 +412,14 @@ def verify_unit(unit, units, tier='quick', jobs=4, log=None):
            'kind': unit.get('kind', 'function'), 'source': unit.get('tu'), 'decl': unit.get('decl'), 'sig': unit.get('sig')}
     t0 = time.time()
     try:
-        b = build_c(unit, units, outdir)
+        if unit.get('unwind'):
+            # bounded stand-in: small capacity, loop contracts dropped, loops unwound with unwinding assertions (never counted as proved)
+            unit = dict(unit)
+            unit['sections'] = {k: v for k, v in unit['sections'].items() if not k.startswith('loop ')}
+            unit['backend'] = unit.get('bounded_backend', 'sat')
+            b = build_c(unit, units, outdir, defines=['#define CAP %s' % unit.get('cap', '5'), '#define BOUNDED 1'])
+        else:
+            b = build_c(unit, units, outdir)
     except ExtractionBreak as e:
         res['reason'] = 'EXTRACTION-BREAK: %s' % e
         return res
